@@ -320,6 +320,7 @@ class Machine(object):
 
     def run(self):
         undo = self.fs.install()
+        self.units0 = libops.units_table_size()
         try:
             for idx, op in enumerate(self.spec['ops']):
                 fn = getattr(self, 'do_' + op['op'])
@@ -343,6 +344,19 @@ class Machine(object):
                               'process-state-changed|by=%s' % op['op'],
                               {'now': libops.process_state_canon()}, idx)
                     self.proc0 = pd
+            # at the end (never in between: the probe itself would put the
+            # units it asks for into whatever memo the table keeps): what
+            # the units table answers, against definitions
+            n_ops = len(self.spec['ops'])
+            bad = libops.units_behaviour_problems(n_ops % 2)
+            if bad:
+                self.viol('state-altered', 'units-table',
+                          'units-table-answers-against-definitions',
+                          {'problems': bad[:6]}, n_ops)
+            size = libops.units_table_size()
+            if size is not None and self.units0 is not None and \
+                    size != self.units0:
+                self.probe('history_grew_the_units_table')
         finally:
             undo()
         return self
